@@ -81,6 +81,19 @@ type Part struct {
 	KV   *node.KVNode
 	Raft *FakeRaft
 	prog node.VerifProgress
+	// Poisoned is set when the apply path panicked: the store may hold locks for ever, so it
+	// is abandoned instead of closed.
+	Poisoned bool
+}
+
+func (p *Part) apply(ents []pb.Entry, replayUpTo uint64) {
+	defer func() {
+		if r := recover(); r != nil {
+			p.Poisoned = true
+			panic(fmt.Sprintf("panic in the apply path (KVNode.applyEntries): %v", r))
+		}
+	}()
+	p.KV.VerifApply(&p.prog, ents, replayUpTo)
 }
 
 // Sim is one data node process in miniature: a real server.Server with one namespace.
@@ -130,7 +143,7 @@ func (f *FakeRaft) ProposeEntryWithDrop(ctx context.Context, e pb.Entry, cancel 
 	}
 	f.Log = append(f.Log, e)
 	f.mu.Unlock()
-	f.part.KV.VerifApply(&f.part.prog, []pb.Entry{e}, 0)
+	f.part.apply([]pb.Entry{e}, 0)
 	return nil
 }
 
@@ -179,7 +192,7 @@ func (p *Part) Flush(sizes []int, replayUpTo uint64) {
 			}
 			sizes = sizes[1:]
 		}
-		p.KV.VerifApply(&p.prog, ents[:n], replayUpTo)
+		p.apply(ents[:n], replayUpTo)
 		ents = ents[n:]
 	}
 }
@@ -201,7 +214,7 @@ func (p *Part) ApplyLog(ents []pb.Entry, sizes []int, replayUpTo uint64) {
 			}
 			sizes = sizes[1:]
 		}
-		p.KV.VerifApply(&p.prog, ents[:n], replayUpTo)
+		p.apply(ents[:n], replayUpTo)
 		ents = ents[n:]
 	}
 }
@@ -294,7 +307,9 @@ func (s *Sim) Close() {
 	}
 	s.closed = true
 	for _, p := range s.Parts {
-		p.KV.VerifClose()
+		if !p.Poisoned {
+			p.KV.VerifClose()
+		}
 	}
 	s.cleanup()
 }
